@@ -31,7 +31,7 @@ try:
         results[c] = {"exit": p.returncode, "violation_keys": keys}
 finally:
     subprocess.run(["git", "-C", "/repo", "checkout", "--", "."], check=True)
-prop = name.split("_")[0]
+prop = name[:3]
 needs = ""
 m = re.search(r"(?is)##\s*What it needs[^\n]*\n(.*?)(\n## |\Z)", readme)
 if m:
